@@ -36,11 +36,14 @@ def tc_class():
     if _TC is None:
         from tensordict import TensorDict, tensorclass
 
+        from typing import Optional
+
         @tensorclass
         class C05TC:
             a: torch.Tensor
             n: TensorDict
             s: str = "x"
+            o: Optional[torch.Tensor] = None      # a field that holds None (a placeholder in `_non_tensordict`)
 
         _TC = C05TC
     return _TC
@@ -324,7 +327,11 @@ def hand_calls(kind: str, subject):
     if kind in ("lazy", "nts"):
         calls += [("append", (None,), {}), ("insert", (0, None), {})]
     if kind == "tc":
-        calls += [("__setattr__", ("a", one()), {}), ("__setattr__", ("zz", one()), {}), ("__setattr__", ("s", "y"), {})]
+        calls += [("__setattr__", ("a", one()), {}), ("__setattr__", ("zz", one()), {}), ("__setattr__", ("s", "y"), {}),
+                  # the field that currently holds None: every way of giving it a value is a structural change
+                  ("set", ("o", one()), {}), ("set", ("o", one()), {"inplace": True}), ("__setattr__", ("o", one()), {}),
+                  ("update", ({"o": one()},), {}), ("update", ({"o": one()},), {"inplace": True}),
+                  ("set", ("s", "y"), {"inplace": True}), ("set", ("s", "y"), {})]
     return calls
 
 
